@@ -47,6 +47,14 @@ def Enf.rbacArgsOk (e : Enf) (op : RbacOp) : Bool :=
        | .deleteDomains _ => true)
   | _, _, _ => false
 
+/-- the convenience calls that are one management call (the others — DeleteUser, DeleteRole,
+    DeleteAllUsersByDomain, DeleteDomains — are sequences of them: finding D40) -/
+def RbacOp.single : RbacOp → Bool
+  | .addRoleForUser _ _ _ | .addRolesForUser _ _ _ | .deleteRoleForUser _ _ _ | .deleteRolesForUser _ _
+  | .deletePermission _ | .addPermissionForUser _ _ | .addPermissionsForUser _ _ | .deletePermissionForUser _ _
+  | .deletePermissionsForUser _ | .deleteRolesForUserInDomain _ _ => true
+  | .deleteUser _ | .deleteRole _ | .deleteAllUsersByDomain _ | .deleteDomains _ => false
+
 /-- run a history of convenience calls -/
 def Enf.runRbac (e : Enf) : List RbacOp → Option Enf
   | [] => some e
